@@ -204,6 +204,46 @@ def monitored(run, tier):
                 run.violation("a function return did not transfer control to the instruction after the call being served", rec)
             elif dsp != want:
                 run.violation(f"stack pointer at return differs from the call by {dsp}, expected {want}", rec)
+    # programs with library modules (text, outside the generator's grammar): every executed return must go back to
+    # the call being served, under both calling conventions (stack-pointer deltas are not checked here: the
+    # arities are not known to the harness)
+    tjobs, tmeta = [], []
+    for name, src in impl.repo_programs():
+        if not isinstance(src, dict) or "error" in name:
+            continue
+        for vn in ("noinline", "pushpop", "default", "pushpopinline"):
+            tjobs.append((src, pipeline.VECTORS[vn])); tmeta.append((name, vn, src))
+    tres = impl.compile_many(tjobs)
+    tok = [(m, r) for m, r in zip(tmeta, tres) if "code" in r]
+    try:
+        txt = [diffrun.HEADER]
+        for j, (m, r) in enumerate(tok):
+            ents = sorted({e + d for e in pipeline.region_entries(r)[0] for d in (0, 1)})
+            txt.append(f"Definition T{j} : @program float := {Parsed(r['code']).coq()}.")
+            txt.append(f"Eval vm_compute in (monitor_float {pipeline.FT} T{j} [{'; '.join(str(e) for e in ents)}]%nat 1%Z).")
+        rc_, out_, err_ = core.coqc_text("c06lib", "\n".join(txt), 900)
+        if rc_ != 0:
+            raise core.CoqEvalError(err_[-1500:])
+        louts = core.parse_evals(out_)
+    except core.CoqEvalError as e:
+        run.obligation_broken("monitored execution of library programs (model evaluation)", str(e))
+        louts = []
+    for ((name, vn, src), r), o in zip(tok, louts):
+        kinds["library_programs_monitored"] = kinds.get("library_programs_monitored", 0) + 1
+        run.count("evaluations")
+        recs = re.findall(r"\((\d+)%?\w*, (true|false), \(?(-?\d+)\)?%?\w*, (true|false)\)", re.sub(r"%[a-zA-Z]+", "", o))
+        ft_ = pipeline.falls_through(r)
+        for callee, ok, dsp, orphan in recs:
+            kinds["returns_checked"] += 1
+            rec = {"kind": "return", "program": name, "callee_line": int(callee), "returned_to_call_site": ok == "true", "orphan_return": orphan == "true",
+                   "option_set": vn, "options": pipeline.VECTORS[vn], "source": src.get(""), "modules": sorted(k for k in src if k), "code": r["code"],
+                   "falls_through": ft_, "main_can_terminate": "while True" not in src.get("", ""), "tail_call": False, "tail_after_call": False}
+            if orphan == "true":
+                run.violation("a 'j ra' executed although no call is being served", rec)
+                break
+            if ok != "true":
+                run.violation("a function return did not transfer control to the instruction after the call being served", rec)
+                break
     # arguments / results intact: differential execution of the same programs
     try:
         pipeline.diff_cases(oks, name="c06d")
